@@ -43,7 +43,7 @@ UNITS = {
             ("raw", "lemmas/conn_views.rs", "lemma", {"mod": "connection"}),
             ("repo", "src/net/connection.rs", {"rules": (R_STD_IO, R_DEREF_SLICE, R_FOR_ITEMS), "mod": "connection"}),
         ],
-        "mod_uses": {"connection": "use super::frame::{self, Frame};", "error": "use super::command_shim as command;"},
+        "mod_uses": {"connection": "broadcast use super::error::verif_from_Error::axiom_from_Error_Io;\nuse super::frame::{self, Frame};", "error": "use super::command_shim as command;"},
         "root_uses": "pub use frame::*;\npub use error::Error;\npub use connection::Connection;\n",
         "extern": ["bytes"],
     },
@@ -204,7 +204,7 @@ R_FOR_KEYS = make_for_rule("R-for-collect", _keys_for)
 R_NO_UNPIN = make_seq_rule("R-unpin", "AsyncWriteExt + Unpin", "AsyncWriteExt")
 R_TRYFROM_CALL = make_seq_rule("R-tryfrom-call", "Command::try_from(frame)", "super::command::verif_command_try_from(frame)")
 CMD_RULES = (R_TRY_INTO_DEL, R_TRY_INTO_GET, R_TRY_INTO_SET, R_SPAWN, R_FOR_KEYS, R_KV_GHOST)
-CMD_USES = "use super::verif_net as net;\nuse super::frame::{self, Frame};\nuse super::connection::Connection;\nuse super::command::{self, Utf8Bytes, ubytes, SCmd, reply, effect, del_fold, ok_text};\nuse std::convert::TryFrom;"
+CMD_USES = "broadcast use super::error::verif_from_Error::axiom_from_Error_Io, super::error::verif_from_Error::axiom_from_Error_AsyncTask;\nuse super::verif_net as net;\nuse super::frame::{self, Frame};\nuse super::connection::Connection;\nuse super::command::{self, Utf8Bytes, ubytes, SCmd, reply, effect, del_fold, ok_text};\nuse std::convert::TryFrom;"
 UNITS["cmd"] = {
     "name": "cmd",
     "header": NET_HEADER,
@@ -239,10 +239,30 @@ UNITS["cmd"] = {
         ("raw", "lemmas/srv_lemmas.rs", "lemma", {"mod": "server"}),
         ("repo", "src/net/server.rs", {"mod": "server", "rules": CMD_RULES + (rule_mut_self, R_TRYFROM_CALL), "select": True, "only": ["struct Handler", "impl Handler<KV>::fn run"]}),
     ],
-    "mod_uses": {"connection": "use super::frame::{self, Frame};", "error": "",
+    "mod_uses": {"connection": "broadcast use super::error::verif_from_Error::axiom_from_Error_Io;\nuse super::frame::{self, Frame};", "error": "",
                  "command": "use super::frame::{self, Frame};\nuse super::connection::Connection;\nuse super::{del::Del, get::Get, set::Set};\nuse std::convert::TryFrom;\nuse vstd::std_specs::iter::IteratorSpec;",
                  "get": CMD_USES, "set": CMD_USES, "del": CMD_USES,
                  "server": "use std::sync::Arc;\nuse std::convert::TryFrom;\nuse super::command::{Command, SCmd, spec_command, reply, effect, cview};\nuse super::connection::Connection;\nuse super::frame::{self, Frame};"},
     "root_uses": "pub use frame::*;\npub use error::Error;\npub use connection::Connection;\n",
     "extern": ["bytes"],
 }
+
+# ------------------------------------------------------------------------------------------------
+# unit cmd10: Handler::run once more, under a contract for ARBITRARY input (C10, one connection)
+import copy as _copy
+_c10 = _copy.deepcopy({k: v for k, v in UNITS["cmd"].items() if k != "parts"})
+_c10["name"] = "cmd10"
+_c10["specs"] = ["frame.spec", "connection.spec", "command.spec", "server10.spec"]
+_c10["spec_skip"] = {"command.spec": ("src/net/server.rs",)}
+_parts = []
+for _p in UNITS["cmd"]["parts"]:
+    if _p[0] == "repo" and _p[1].startswith("src/net/command"):
+        _o = dict(_p[2]); _o["stub_all"] = True
+        _parts.append(("repo", _p[1], _o))
+    elif _p[0] == "raw" and _p[1] == "lemmas/srv_lemmas.rs":
+        _parts.append(_p)
+        _parts.append(("raw", "lemmas/srv10_lemmas.rs", "lemma", {"mod": "server"}))
+    else:
+        _parts.append(_p)
+_c10["parts"] = _parts
+UNITS["cmd10"] = _c10
